@@ -301,6 +301,7 @@ class CounterToken(Token, FileSystemEventHandler):
                         tokenfile = TokenFile(path)
                         tokenfile.watch()
                         self.cache[path.name] = tokenfile
+                        self.available -= tokenfile.count
         except FileNotFoundError:
             # We did not find the token file... just ignore
             pass
@@ -360,6 +361,7 @@ class CounterToken(Token, FileSystemEventHandler):
                             tokenfile = TokenFile(path)
                             tokenfile.watch()
                             self.cache[path.name] = tokenfile
+                            self.available -= tokenfile.count
                         except FileNotFoundError:
                             # Well, the file did not exist anymore...
                             pass
